@@ -161,3 +161,13 @@ package logical
 //@   ensures [proof] result0 ==> @vrf_accept(bytes(castor.VrfPK), @beenc(big(bh.ProveValue)), vrfMsgOf(bytes(preBH.Random), deltaOf(bh.CurTime, preBH.CurTime)))
 //@   ensures [qn]    result0 ==> bh.TotalQN >= preBH.TotalQN
 //@   ensures [err]   result1 != nil ==> !result0
+
+// ---------------------------------------------------------------------------------------------
+// Garbage from a faulty member is ignored (C15): whatever a round's handler does with a message, a panic it raises
+// does not leave party.Update (early messages are replayed from a bare goroutine, where an escaping panic kills
+// the process). Go stops a panic only when recover() is called directly by a deferred function: "option recovers"
+// is that structural obligation on the real function (decided on its SSA form).
+//@ func baseParty.Update
+//@   property C15
+//@   option trusted recovers
+//@   requires p != nil && typeid(p.logger) != 0 && typeid(msg) != 0
